@@ -83,7 +83,7 @@ class FakeSelector:
         return [object()] if self.selects.pop(0) else []
 
 
-def run_impl(reads, selects, max_calls):
+def run_impl(reads, selects, max_calls, poll=False):
     """reads: list of ('chunk', bytes) | ('again', None) | ('eof', None). Returns list of results:
     bytes for lines / b'' for READ_EMPTY / None for READ_EOF, stopping after the first READ_EOF."""
     from gscrib.printrun import device as devmod
@@ -97,6 +97,8 @@ def run_impl(reads, selects, max_calls):
         d.connect()
         out = []
         for _ in range(max_calls):
+            if poll and not d.is_connected:      # the way printcore reads: _listen_can_continue() before every readline()
+                break
             r = d.readline()
             out.append(r)
             if r is None:
@@ -258,10 +260,11 @@ def main():
         ]
         cases = corpus + cases
     impl = []
-    for c in cases:
+    for ci, c in enumerate(cases):
         maxc = 2 * len(c["reads"]) + sum(d.count(b"\n") for k, d in c["reads"] if k == "chunk") + 4
         try:
-            impl.append(run_impl(c["reads"], c["selects"], maxc))
+            # every other case reads the way printcore does: is_connected is polled before each readline()
+            impl.append(run_impl(c["reads"], c["selects"], maxc, poll=(ci % 2 == 1)))
         except Exception as e:  # an exception is itself a behaviour
             impl.append(["EXC", type(e).__name__, str(e)[:100]])
     # model, evaluated inside Coq
